@@ -137,55 +137,85 @@ func (o *Obl) Solve(header string, opts SolveOpts) {
 		}
 	}
 	os.WriteFile(file, []byte(o.Query(header, false)), 0644)
-	// stage 1: the usually-fastest solver alone, briefly (saves two thirds of the CPU)
-	if !opts.All && opts.Only == "" {
-		o1 := opts
-		o1.TimeoutS = 3
-		c1, cancel1 := context.WithTimeout(context.Background(), 4*time.Second)
-		r, _, t := runSolver(c1, solvers[0], file, o1)
-		cancel1()
-		if r == "unsat" || (r == "sat" && o.Expect == "sat") {
-			o.Result, o.Solver, o.Time = r, solvers[0].Name, t
-			return
-		}
+	// Proof search with e-matching is bimodal (instant or divergent) and the mode depends on the
+	// random seed, so the portfolio restarts with fresh seeds rather than waiting:
+	//   stage 1: z3-new, seed s, 2 s        stage 2: z3-new s+1, s+2, z3, cvc5 (<= 10 s)
+	//   stage 3: z3-new s+3, s+4, z3 s+1, cvc5 s+1 with the full timeout
+	type job struct {
+		sv   Solver
+		seed int
 	}
-	ctx, cancel := context.WithCancel(context.Background())
-	defer cancel()
 	type ans struct {
 		solver, res, text string
 		t                 float64
 	}
-	ch := make(chan ans, len(solvers))
-	n := 0
-	for _, s := range solvers {
-		if opts.Only != "" && s.Name != opts.Only {
-			continue
+	runStage := func(jobs []job, timeoutS int) ans {
+		ctx, cancel := context.WithCancel(context.Background())
+		defer cancel()
+		ch := make(chan ans, len(jobs))
+		for _, j := range jobs {
+			go func(j job) {
+				oo := opts
+				oo.TimeoutS = timeoutS
+				oo.Seed = j.seed
+				r, text, t := runSolver(ctx, j.sv, file, oo)
+				ch <- ans{j.sv.Name, r, text, t}
+			}(j)
 		}
-		n++
-		go func(s Solver) {
-			r, text, t := runSolver(ctx, s, file, opts)
-			ch <- ans{s.Name, r, text, t}
-		}(s)
-	}
-	var all []ans
-	best := ans{res: "timeout"}
-	for i := 0; i < n; i++ {
-		a := <-ch
-		all = append(all, a)
-		if a.res == "sat" || a.res == "unsat" {
-			if best.res != "sat" && best.res != "unsat" {
-				best = a
-				if !opts.All {
-					cancel()
-					break
+		best := ans{res: "timeout"}
+		for range jobs {
+			a := <-ch
+			if a.res == "sat" || a.res == "unsat" {
+				if best.res != "sat" && best.res != "unsat" {
+					best = a
+					if !opts.All {
+						return best
+					}
+				} else if best.res != a.res {
+					best = ans{solver: best.solver + "+" + a.solver, res: "disagree", text: best.text + a.text}
 				}
-			} else if best.res != a.res {
-				best = ans{solver: best.solver + "+" + a.solver, res: "disagree", text: best.text + a.text}
+			} else if best.res == "timeout" && (a.res != "timeout" || best.solver == "") {
+				if best.res == "timeout" && a.res != "timeout" {
+					best = a
+				} else if best.solver == "" {
+					best = a
+				}
 			}
-		} else if best.res == "timeout" && a.res != "timeout" {
-			best = a
-		} else if best.res == "timeout" && best.solver == "" {
-			best = a
+		}
+		return best
+	}
+	pick := func(name string) Solver {
+		for _, sv := range solvers {
+			if sv.Name == name {
+				return sv
+			}
+		}
+		return solvers[0]
+	}
+	var best ans
+	s0 := opts.Seed
+	if opts.Only != "" {
+		best = runStage([]job{{pick(opts.Only), s0}}, opts.TimeoutS)
+	} else if opts.All {
+		best = runStage([]job{{pick("z3-new"), s0}, {pick("z3"), s0}, {pick("cvc5"), s0}, {pick("z3-new"), s0 + 1}}, opts.TimeoutS)
+	} else {
+		best = runStage([]job{{pick("z3-new"), s0}}, 2)
+		definite := func(a ans) bool { return a.res == "unsat" || a.res == "sat" }
+		if !definite(best) {
+			t2 := opts.TimeoutS
+			if t2 > 10 {
+				t2 = 10
+			}
+			b2 := runStage([]job{{pick("z3-new"), s0 + 1}, {pick("z3-new"), s0 + 2}, {pick("z3"), s0}, {pick("cvc5"), s0}}, t2)
+			if definite(b2) || best.res == "timeout" {
+				best = b2
+			}
+		}
+		if !definite(best) && opts.TimeoutS > 10 {
+			b3 := runStage([]job{{pick("z3-new"), s0 + 3}, {pick("z3-new"), s0 + 4}, {pick("z3"), s0 + 1}, {pick("cvc5"), s0 + 1}}, opts.TimeoutS)
+			if definite(b3) || best.res == "timeout" {
+				best = b3
+			}
 		}
 	}
 	o.Result, o.Solver, o.Time = best.res, best.solver, best.t
